@@ -7,6 +7,7 @@ from vsa.facts import Facts, unwrap, show, walk, lit_value
 from vsa.front import AnalysisBroken
 from vsa.alg import Fold, S, guard_strs
 from vsa.cfg import CFG
+from vsa.cases import decide, executes, table_mismatch
 
 LEVEL = "other"
 T = "votca::tools::"
@@ -37,6 +38,9 @@ def run(rep, tier):
     rep.rule("R11.5", "typed access: bool accepts exactly true/false (case-insensitive), 1, 0; everything else throws")
     rep.rule("R11.6", "list merge: the default element copied for additional user elements is read before any element of that tag is "
                       "merged with user input (user values of one list element never leak into the next)")
+    rep.rule("R11.7", "XML reader: the character-data callback appends every (text, length) chunk to the current node unconditionally; the "
+                      "start callback adds the element under the current node with every attribute and makes it current, the end callback "
+                      "pops; LoadFromXML registers exactly these callbacks (trimming happens only when values are read)")
     host = os.path.join(front.VERIF, "hosts", "tools_tokenizer.cc")
     units = [front.repo("tools/src/libtools/optionshandler.cc"), front.repo("tools/src/libtools/property.cc"), host]
     F = Facts(front.export(units))
@@ -95,37 +99,73 @@ def run(rep, tier):
     res = [fld for fld in kw["fields"] if fld["name"] == "reserved_keywords_"]
     reserved = sorted(strings_in(res[0].get("init"))) if res and res[0].get("init") else []
     rep.check(reserved == ["OPTIONAL", "REQUIRED"], "R11.2", "reserved-keywords", "reserved keywords = {OPTIONAL, REQUIRED}", "reserved_keywords_ is %s" % reserved, "%s:%s" % (kw["file"], kw["line"]))
+    # truth tables over the predicates A = has a 'default', I = 'injected', E = default equals the keyword, K = default is a reserved
+    # keyword, C = has children; the guards are folded (local helpers inlined) and decided for all assignments
+    def prop_oracle(keyword):
+        def orc(leaf):
+            s_ = str(leaf)
+            if isinstance(leaf, tuple):
+                if leaf[0] in ("==", "!=") and len(leaf) == 3:
+                    if "getAttribute" in s_ and '"default"' in s_ and keyword is not None and '"%s"' % keyword in s_:
+                        return ("E", leaf[0] == "==")
+                    if "find(" in s_ and "reserved_keywords_" in s_ and "end(" in s_:
+                        return ("K", leaf[0] == "!=")
+                return None
+            if "hasAttribute(" in s_ and '"default"' in s_:
+                return ("A", True)
+            if "hasAttribute(" in s_ and '"injected"' in s_:
+                return ("I", True)
+            if s_.startswith("HasChildren("):
+                return ("C", True)
+            if s_.startswith("none_of(") and "reserved_keywords_" in s_:
+                return ("K", False)
+            if s_.startswith("any_of(") and "reserved_keywords_" in s_:
+                return ("K", True)
+            if s_.startswith("count(") and "reserved_keywords_" in s_:
+                return ("K", True)
+            return None
+        return orc
+
+    def fmt_row(m):
+        a_, g_, w_ = m
+        return "for %s it %s (required: %s)" % (", ".join("%s=%s" % kv for kv in sorted(a_.items())),
+                                                "is undecided" if g_ is None else ("happens" if g_ else "does not happen"), "happens" if w_ else "does not happen")
     cr = F.one(OH + "CheckRequired")
     rep.analysed(cr)
-    ifs = [n for n in cr.walk() if n.get("k") == "if"]
-    ok = False
-    if len(ifs) == 1:
-        c = nows(show(ifs[0]["cond"]))
-        ok = 'hasAttribute' in c and '"default"' in c and '=="REQUIRED"' in c.replace(")", "").replace("(", "") or '=="REQUIRED"' in c
-        ok = ok and '!options.hasAttribute(conststd::basic_string<char>("injected"' in c.replace(" ", "") or ('!options.hasAttribute(' in c and '"injected"' in c)
-        ok = ok and any(x.get("k") == "throw" for x in walk(ifs[0]["then"])) and c.count("&&") == 2 and "||" not in c
-    rec_calls = [n for n in cr.walk() if n.get("k") == "mcall" and n.get("callee") == OH + "CheckRequired"]
-    rep.check(ok and len(rec_calls) == 1, "R11.2", "required", "default == REQUIRED and not injected -> throw (recursively for all nodes)",
-              "CheckRequired condition is %s" % (show(ifs[0]["cond"]) if ifs else "?"), cr.loc(), sample=True)
+    fc = Fold(cr, record_calls=r"CheckRequired$").run()
+    thr = [e for e in fc.events if e["kind"] == "throw"]
+    rec_calls = [e for e in fc.events if e["kind"] == "call"]
+    if len(thr) != 1:
+        rep.broken("R11.2", "CheckRequired: expected one throw, found %d" % len(thr))
+    else:
+        mm = table_mismatch(["A", "I", "E"], lambda a_: executes(thr[0], None, a_, prop_oracle("REQUIRED")), lambda a_: a_["A"] and a_["E"] and not a_["I"])
+        rep.check(mm is None and len(rec_calls) == 1, "R11.2", "required", "default == REQUIRED and not injected -> throw (recursively for all nodes)",
+                  "CheckRequired: the throw %s" % (fmt_row(mm) if mm else "is fine but the recursion into the children is missing or duplicated"), cr.loc(thr[0]["node"]), sample=True)
     ro = F.one(OH + "RemoveOptional")
     rep.analysed(ro)
     lam = [n for n in ro.walk() if n.get("k") == "lambda"]
-    ok = False
-    if len(lam) == 1:
-        rets = [x for x in walk(lam[0]["body"]) if x.get("k") == "return"]
-        if len(rets) == 1:
-            c = nows(show(rets[0]["value"]))
-            ok = '"default"' in c and '"OPTIONAL"' in c and '"injected"' in c and c.count("&&") == 2 and "||" not in c and "!p.hasAttribute(" in c
     dc = [n for n in ro.walk() if n.get("k") == "mcall" and (n.get("callee") or "").endswith("Property::deleteChildren")]
-    rep.check(ok and len(dc) == 1, "R11.2", "optional", "children with default == OPTIONAL and not injected are deleted", "RemoveOptional predicate is %s" % (
-        show([x for x in walk(lam[0]["body"]) if x.get("k") == "return"][0]["value"]) if lam else "?"), ro.loc(), sample=True)
+    if len(lam) != 1 or len(dc) != 1 or len(lam[0].get("params", [])) != 1:
+        rep.broken("R11.2", "RemoveOptional: expected one deleteChildren(predicate) call with a lambda predicate")
+    else:
+        fr = Fold(ro)
+        pv = fr.eval_lambda(lam[0], [S(lam[0]["params"][0]["name"] or "p")])
+        mm = table_mismatch(["A", "I", "E"], lambda a_: decide(pv, None, a_, prop_oracle("OPTIONAL")), lambda a_: a_["A"] and a_["E"] and not a_["I"])
+        rep.check(mm is None, "R11.2", "optional", "children with default == OPTIONAL and not injected are deleted",
+                  "RemoveOptional: deletion %s" % (fmt_row(mm) if mm else ""), ro.loc(dc[0]), sample=True)
     ij = F.one(OH + "InjectDefaultsAsValues")
     rep.analysed(ij)
-    conds = [nows(show(n["cond"])) for n in ij.walk() if n.get("k") == "if"]
-    ok = any('"default"' in c and '!prop.hasAttribute(' in c and '"injected"' in c for c in conds) and any("none_of" in c and "reserved_keywords_" in c for c in conds)
-    asg = [n for n in ij.walk() if n.get("k") == "opcall" and n.get("op") == "=" and nows(show(n["args"][0])) == "prop.value()"]
-    ok = ok and len(asg) == 1 and nows(show(asg[0]["args"][1])) == "value"
-    rep.check(ok, "R11.2", "inject", "leaf value := default unless injected or a reserved keyword", "InjectDefaultsAsValues conditions are %s" % conds, ij.loc(), sample=True)
+    fj = Fold(ij, record_calls=r"InjectDefaultsAsValues$").run()
+    asg = [e for e in fj.events if e["kind"] == "store" and re.sub(r"\s", "", e["target"]).endswith(".value()")]
+    if len(asg) != 1:
+        rep.broken("R11.2", "InjectDefaultsAsValues: expected one assignment to <option>.value(), found %d" % len(asg))
+    else:
+        mm = table_mismatch(["C", "A", "I", "K"], lambda a_: executes(asg[0], None, a_, prop_oracle(None)),
+                            lambda a_: (not a_["C"]) and a_["A"] and not a_["I"] and not a_["K"])
+        val_ok = "getAttribute" in str(asg[0]["value"]) and '"default"' in str(asg[0]["value"])
+        rep.check(mm is None and val_ok, "R11.2", "inject", "leaf value := default unless injected or a reserved keyword",
+                  "InjectDefaultsAsValues: the assignment of the default %s" % (fmt_row(mm) if mm else "stores %s, not the 'default' attribute" % str(asg[0]["value"])[:120]),
+                  ij.loc(asg[0]["node"]), sample=True)
 
     # ---------------------------------------------------------------- R11.6
     ow = F.one(OH + "OverwriteDefaultsWithUserInput")
@@ -208,6 +248,9 @@ def run(rep, tier):
         rep.floor("R11.4", n_src, 2, "value/attribute sinks in PrintNodeXML")
         rep.check(not tainted, "R11.4", "xml-escape", "values and attribute values are escaped before they reach the stream",
                   "PrintNodeXML writes %s to the XML stream without escaping &, <, >, \": a tree with such characters does not survive write/load" % tainted, pn.loc(), sample=True)
+
+    # ---------------------------------------------------------------- R11.7 XML reader side
+    check_xml_reader(rep, F)
 
     # ---------------------------------------------------------------- R11.5
     cb = [f_ for f_ in F.find(T + "internal::convert_impl") if "type<bool>" in f_.j["sig"]]
@@ -316,3 +359,71 @@ def valid_value(value, choices, multi):
     if not multi:
         return value in choices
     return all(w in choices for w in re.split(r"[ ,]+", value.strip()) if w)
+
+
+def check_xml_reader(rep, F):
+    lf = F.one(T + "Property::LoadFromXML")
+    rep.analysed(lf)
+    reg = {}
+    for n in lf.walk():
+        if n.get("k") == "call" and n.get("callee") in ("XML_SetElementHandler", "XML_SetCharacterDataHandler"):
+            reg[n["callee"]] = [unwrap_fn(a) for a in n["args"][1:]]
+    if "XML_SetElementHandler" not in reg or "XML_SetCharacterDataHandler" not in reg or None in reg["XML_SetElementHandler"] + reg["XML_SetCharacterDataHandler"]:
+        rep.broken("R11.7", "Property::LoadFromXML: expat callback registration not found (%s)" % reg)
+        return
+    start_q, end_q = reg["XML_SetElementHandler"]
+    char_q = reg["XML_SetCharacterDataHandler"][0]
+    # --- character data: appended unconditionally and completely
+    ch = F.one(char_q)
+    rep.analysed(ch)
+    fo = Fold(ch, record_calls=r"basic_string.*::(append|operator\+=|push_back|insert)$").run()
+    apps = [e for e in fo.events if e["kind"] == "call"]
+    ps = [p_["name"] for p_ in ch.j["params"]]
+    ok, why = False, "no append of the chunk to the current node's value found"
+    if len(apps) == 1 and len(ps) == 3:
+        e = apps[0]
+        syms = {str(x) for a in e["args"] if hasattr(a, "free_symbols") for x in a.free_symbols}
+        uncond = not [g_ for g_ in e["guards"] if not (isinstance(g_[0], tuple) and g_[0] and g_[0][0] in ("loop", "each"))] and not e.get("not")
+        tgt = str(e["obj"])
+        ok = uncond and {ps[1], ps[2]} <= syms and "value(" in tgt and "top(" in tgt
+        why = ("the chunk is appended only under %s / unless control left under %s" % (guard_strs(fo, e["guards"]), [guard_strs(fo, g_) for g_ in e.get("not", [])])) if not uncond else \
+            "append target %s / arguments %s" % (tgt[:80], [str(a)[:40] for a in e["args"]])
+    rep.check(ok, "R11.7", "xml-reader|chardata", "every chunk (txt, len) handed over by expat is appended to the current node's value",
+              "%s: %s - character data (line breaks inside values, blanks between entities) is lost when a file is loaded" % (char_q, why), ch.loc(), sample=True)
+    # --- start: add under top, all attributes, push
+    st = F.one(start_q)
+    rep.analysed(st)
+    g = CFG(st)
+    calls = [n for n in st.walk() if n.get("k") == "mcall"]
+    add = [n for n in calls if (n.get("callee") or "").endswith("Property::add")]
+    seta = [n for n in calls if (n.get("callee") or "").endswith("Property::setAttribute")]
+    push = [n for n in calls if re.search(r"stack<.*>::push$", n.get("callee") or "")]
+    ok = len(add) == 1 and len(seta) == 1 and len(push) == 1
+    why = "expected one add / setAttribute / push, found %d/%d/%d" % (len(add), len(seta), len(push))
+    if ok:
+        elp = st.j["params"][1]["decl"]
+        atp = st.j["params"][2]["decl"]
+        ok = any(x.get("k") == "ref" and x.get("decl") == elp for x in walk(add[0]["args"][0])) and "top()" in show(add[0]["obj"]).replace(" ", "") or \
+            (any(x.get("k") == "ref" and x.get("decl") == elp for x in walk(add[0]["args"][0])) and "top" in show(st.decls.get(unwrap(add[0]["obj"]).get("decl"), {}).get("init") or {}))
+        why = "the new element is not added under the current node with the element name"
+        if ok:
+            loops = [a for a in st.ancestors(seta[0]) if a.get("k") in ("for", "while")]
+            ok = bool(loops) and all(any(x.get("k") == "ref" and x.get("decl") == atp for x in walk(a_)) for a_ in seta[0]["args"]) \
+                and all(g.dominates(add[0]["id"], push[0]["id"]) for _ in (0,)) and all(g.dominates_block(g.where[push[0]["id"]][0], b) for b in g.exit_blocks(normal=True))
+            why = "attributes are not all copied (loop over attr pairs) or the new node is not made current on every path"
+    rep.check(ok, "R11.7", "xml-reader|start", "start tag: add child, copy every attribute, push", "%s: %s" % (start_q, why), st.loc())
+    en = F.one(end_q)
+    rep.analysed(en)
+    g2 = CFG(en)
+    pops = [n for n in en.walk() if n.get("k") == "mcall" and re.search(r"stack<.*>::pop$", n.get("callee") or "")]
+    ok = len(pops) == 1 and all(g2.dominates_block(g2.where[pops[0]["id"]][0], b) for b in g2.exit_blocks(normal=True))
+    rep.check(ok, "R11.7", "xml-reader|end", "end tag: pop exactly once on every path", "%s does not pop the node stack exactly once on every path" % end_q, en.loc())
+
+
+def unwrap_fn(a):
+    a = unwrap(a)
+    while a is not None and a.get("k") in ("cast", "unop") and a.get("sub") is not None:
+        a = unwrap(a["sub"])
+    if a is not None and a.get("k") == "ref":
+        return a.get("qname") or a.get("name")
+    return None
